@@ -69,6 +69,16 @@ type Action struct {
 	// Pre lists bogus datagrams sent before the real one (UDP only).
 	Pre       []PreKind
 	PreTamper TamperFunc
+	// PreID, when set, chooses the id of the i-th (0-based) entry of Pre for the
+	// wrong-id kinds (default: query id + 1). Returning the query's own id makes
+	// that datagram a right-id one.
+	PreID func(i int, qid uint16) uint16
+	// PreTCP: Pre also applies over TCP — every bogus message is written as its
+	// own frame ahead of the real one.
+	PreTCP bool
+	// PreOnly: after the Pre messages nothing else is sent (the real reply never
+	// comes); outcome "pre-only".
+	PreOnly bool
 	// Truncate (UDP only): reply TC=1 with empty sections so the client
 	// retries over TCP; TCP says what happens there.
 	Truncate bool
